@@ -404,39 +404,44 @@ def one_case(mon, rng, sample=False):
                 ea = abs2["examples"][ei]
                 mon.seen("modification_history", "remove_column_then_add_column")
             last_table = (ei, e)
-            if kind == "add_row":
-                cells = [rng.choice(TAGVALS) for _ in ea["header"]]
-                if rng.random() < 0.5:
-                    e.table.add_row(list(cells))
+            try:
+                if kind == "add_row":
+                    cells = [rng.choice(TAGVALS) for _ in ea["header"]]
+                    if rng.random() < 0.5:
+                        e.table.add_row(list(cells))
+                    else:
+                        # add_row() also accepts a ready-made Row object (e.g. taken from another table)
+                        from behave.model import Row
+                        e.table.add_row(Row(list(e.table.headings), list(cells), line=None))
+                        mon.seen("modification", "add_row_object")
+                    ea["rows"].append(list(cells))
+                elif kind == "add_column":
+                    name = "new%d" % len(mods)
+                    if "<unknown col>" in repr(outline_abs["steps"]) + outline_abs["name"] and "unknown col" not in ea["header"] and rng.random() < 0.7:
+                        # the template refers to a column that only exists from now on: its cells fill the placeholder in every row
+                        name = "unknown col"
+                        mon.seen("added_column", "one_the_template_refers_to")
+                    vals = [rng.choice(VALUES) for _ in ea["rows"]]
+                    e.table.add_column(name, values=list(vals))
+                    ea["header"] = ea["header"] + [name]
+                    ea["rows"] = [r + [v] for r, v in zip(ea["rows"], vals)]
                 else:
-                    # add_row() also accepts a ready-made Row object (e.g. taken from another table)
-                    from behave.model import Row
-                    e.table.add_row(Row(list(e.table.headings), list(cells), line=None))
-                    mon.seen("modification", "add_row_object")
-                ea["rows"].append(list(cells))
-            elif kind == "add_column":
-                name = "new%d" % len(mods)
-                if "<unknown col>" in repr(outline_abs["steps"]) + outline_abs["name"] and "unknown col" not in ea["header"] and rng.random() < 0.7:
-                    # the template refers to a column that only exists from now on: its cells fill the placeholder in every row
-                    name = "unknown col"
-                    mon.seen("added_column", "one_the_template_refers_to")
-                vals = [rng.choice(VALUES) for _ in ea["rows"]]
-                e.table.add_column(name, values=list(vals))
-                ea["header"] = ea["header"] + [name]
-                ea["rows"] = [r + [v] for r, v in zip(ea["rows"], vals)]
-            else:
-                if len(ea["header"]) < 2:
-                    continue
-                name = rng.choice(ea["header"])
-                if any("<%s>" % name in t for t in outline_abs["tags"]):
-                    continue    # a tag with an unknown placeholder is dropped by design -- not part of the statement
-                if name in ("row.id", "examples.index"):
-                    continue    # without the column the SPECIAL placeholder of that name takes over, which behave renders in names,
-                    #             step names and tags but not in doc-strings / step tables: outside the statement (column placeholders)
-                j = ea["header"].index(name)
-                e.table.remove_column(name)
-                ea["header"] = ea["header"][:j] + ea["header"][j + 1:]
-                ea["rows"] = [r[:j] + r[j + 1:] for r in ea["rows"]]
+                    if len(ea["header"]) < 2:
+                        continue
+                    name = rng.choice(ea["header"])
+                    if any("<%s>" % name in t for t in outline_abs["tags"]):
+                        continue    # a tag with an unknown placeholder is dropped by design -- not part of the statement
+                    if name in ("row.id", "examples.index"):
+                        continue    # without the column the SPECIAL placeholder of that name takes over, which behave renders in names,
+                        #             step names and tags but not in doc-strings / step tables: outside the statement (column placeholders)
+                    j = ea["header"].index(name)
+                    e.table.remove_column(name)
+                    ea["header"] = ea["header"][:j] + ea["header"][j + 1:]
+                    ea["rows"] = [r[:j] + r[j + 1:] for r in ea["rows"]]
+            except Exception as ex:
+                # a legal call of the table API on a well-formed table that raises: the outline cannot follow its table
+                mon.check("modify.rebuilt", False, lambda: W(modifications=mods + [kind], error=repr(ex), stage="table API call"))
+                break
             mods.append(kind)
             mon.seen("modification", kind)
         schema2 = schema
